@@ -16,7 +16,7 @@ import vlib
 
 PID = "C02"
 ADV = ["rw_cert", "rw_cert_pre", "rw_cert_app", "rw_ske_key", "rw_ske_sig", "rw_ske_full", "rw_crand", "rw_srand", "rw_prof", "rw_cke_key",
-       "omit", "inj_app0", "inj_fin0"]
+       "omit", "inj_app0", "inj_fin0", "inj_sh2", "inj_cert2", "inj_ske2"]
 FP = ["none", "match", "mismatch"]
 TICK_MS = 40
 DEADLINE_MS = 700     # no liveness verdict here: the deadline only bounds how long a refused handshake lingers
@@ -105,6 +105,15 @@ def evaluate(outcome, allowed_by_key):
             if obs.get(f"export_ok_{e}") or obs.get(f"stray_app_{e}", 0):
                 divs.append(({"sub": "dtls", "rule": "FailClosed", "role": role_name[e],
                               "what": "export" if obs.get(f"export_ok_{e}") else "appdata"}, dict(base, obs=obs)))
+    # model-free: a client that connected under an expected fingerprint to the genuine server endpoint shares its
+    # keys with that endpoint (the server sent its Finished, so it is Connected, on the same keys) - otherwise the
+    # keys are somebody else's, whatever was verified on the way
+    if fin["C"] == "Connected" and fp_mode["C"] == "match" and peer_id["C"] == "certS" and \
+            not (obs.get("both_connected") and obs.get("keys_equal") and obs.get("exporter_equal")):
+        divs.append(({"sub": "dtls", "rule": "KeyBoundToAuthenticatedPeer", "role": "client", "fp": "match"},
+                     dict(base, obs=obs)))
+    if fin["C"] == "Connected" and fp_mode["C"] == "match" and obs.get("stray_app_C", 0):
+        divs.append(({"sub": "dtls", "rule": "NoForeignAppData", "role": "client"}, dict(base, obs=obs)))
     if obs.get("both_connected"):
         if not (obs["keys_equal"] and obs["exporter_equal"]):
             divs.append(({"sub": "dtls", "rule": "KeyAgreement"}, dict(base, obs=obs)))
@@ -318,7 +327,8 @@ def replay(path):
 def selftest():
     """Negative controls on the model: each weakened check violates Auth."""
     ok = True
-    for dev, inv in ((["ServerSkipsClientAuth"], "Auth"), (["ServerSkipsClientAuth", "FingerprintAnyInChain"], "AuthClient")):
+    for dev, inv in ((["ServerSkipsClientAuth"], "Auth"), (["ServerSkipsClientAuth", "FingerprintAnyInChain"], "AuthClient"),
+                     (["ServerSkipsClientAuth", "SkeShareBeforeVerify"], "AuthKeyClient")):
         path = _cfg("selftest")
         dc.write_mc_cfg(path, spec="Spec", deviations=dev, adv_kinds=ADV, adv_budget=1, max_ord=1, fpcs=FP, fpss=FP,
                         idcs=["certC", "certM", "stolen", "chain"], idss=["certS", "certM", "stolen", "chain"], deadline=True,
